@@ -48,14 +48,24 @@ impl<'a> Cat<'a> {
         self.entry_n(name, self.calls, &mut f)
     }
     fn entry_n(&mut self, name: &'static str, calls: u64, f: &mut dyn FnMut(u64)) {
-        for i in 0..16 {
-            f(i);
-        }
-        let before = alloc::snap();
-        for i in 0..calls {
-            f(16 + i);
-        }
-        let d = alloc::snap().since(&before);
+        let r = vmon::catch(std::panic::AssertUnwindSafe(|| {
+            for i in 0..16 {
+                f(i);
+            }
+            let before = alloc::snap();
+            for i in 0..calls {
+                f(16 + i);
+            }
+            alloc::snap().since(&before)
+        }));
+        let d = match r {
+            Ok(d) => d,
+            Err(m) => {
+                self.names.push(name);
+                self.rep.violation(&format!("alloc|{}|panic", name), format!("{}: panicked: {}", name, m), format!("entry={}", name));
+                return;
+            }
+        };
         self.names.push(name);
         self.rep.eval(calls);
         self.rep.hit("catalogue_entries_measured");
@@ -822,7 +832,7 @@ fn main() {
             rep.note(format!("allocator self-test failed: {:?} {:?} {:?}", d0, d1, d2));
         }
     }
-    let calls = cli.t(2_000u64, 200_000u64);
+    let calls = cli.t(2_000u64, 1_000_000u64);
     let mut names: Vec<&'static str>;
     {
         let mut cat = Cat { rep: &mut rep, calls, names: Vec::new() };
@@ -835,8 +845,8 @@ fn main() {
         detectors(&mut cat);
         interpolators(&mut cat);
         sources(&mut cat);
-        adaptors(&mut cat, cli.seed, cli.t(200, 5_000));
-        graphs(&mut cat, cli.seed, cli.t(60, 2_000));
+        adaptors(&mut cat, cli.seed, cli.t(200, 50_000));
+        graphs(&mut cat, cli.seed, cli.t(60, 20_000));
         names = std::mem::take(&mut cat.names);
     }
     rep.oblige("catalogue_entries_measured", names.len() as u64);
